@@ -552,7 +552,14 @@ func (cs *connState) handleRequest() bool {
 	}
 
 	// Handle the message.
-	r := cs.handle(m)
+	var r message
+	if f, ok := m.(*tflush); ok && f.OldTag == tag {
+		// A flush naming its own tag has nothing to wait for: waiting
+		// for the tag would wait for this very request, forever.
+		r = &rflush{}
+	} else {
+		r = cs.handle(m)
+	}
 
 	// Clear the tag before sending. That's because as soon as this
 	// hits the wire, the client can legally send another message
